@@ -190,7 +190,7 @@ func selfValidate(prop, repo, verif string) []string {
 		text    string
 	}
 	outs := make([]out, len(jobs))
-	sem := make(chan struct{}, 8)
+	sem := make(chan struct{}, 14)
 	var wg sync.WaitGroup
 	for i, j := range jobs {
 		wg.Add(1)
